@@ -27,7 +27,7 @@ VARIANTS = [
 
 def plan(seed):
     rng = random.Random(seed)
-    prog = P.gen_program(rng, n_mods=1 if seed % 2 else None)      # single-module programs can also run as script / notebook
+    prog = P.gen_program(rng, n_mods=1 if seed % 2 else None, allow_classes=(seed % 3 == 0 and seed % 2 == 0))      # single-module programs (odd seeds) also run as script / notebook; classes only in packages (inspect cannot find class sources in __main__ of the harness)
     call = P.root_call(prog, rng)
     jobs = [("baseline", [("prog", prog), ("act", call)], {})]
     for name, kw in VARIANTS:
